@@ -62,6 +62,8 @@ type ConnectCase struct {
 	Connects  []CAns `json:"connect_answers"` // answer to the k-th CONNECT the proxy sees (later ones: tunnel)
 	Instances int    `json:"instances"`
 	KeepAlive bool   `json:"keep_alive"`
+	// gun option `httptrace` (see HTTPTrace)
+	HTTPTrace HTTPTrace `json:"httptrace"`
 }
 
 func genCAns(t *rapid.T) CAns {
@@ -102,6 +104,7 @@ func genConnect(t *rapid.T) ConnectCase {
 			c.Connects = append(c.Connects, CAns{Status: 200})
 		}
 	}
+	c.HTTPTrace = genHTTPTrace(t)
 	return c
 }
 
@@ -284,10 +287,12 @@ func checkConnect(c ConnectCase, o *vf.Obs) error {
 	defer pand.Remove(name)
 	out := pand.TempName("c19c", ".phout")
 	defer pand.Remove(out)
+	gun := map[string]any{"type": "connect", "target": px.Addr(), "response-header-timeout": "400ms",
+		"dial": map[string]any{"timeout": "400ms"}, "disable-keep-alives": !c.KeepAlive}
+	c.HTTPTrace.apply(gun)
 	pool := map[string]any{
-		"id": "p",
-		"gun": map[string]any{"type": "connect", "target": px.Addr(), "response-header-timeout": "400ms",
-			"dial": map[string]any{"timeout": "400ms"}, "disable-keep-alives": !c.KeepAlive},
+		"id":      "p",
+		"gun":     gun,
 		"ammo":    map[string]any{"type": "uri", "file": name, "passes": 1},
 		"result":  map[string]any{"type": "phout", "destination": out},
 		"rps":     map[string]any{"type": "once", "times": c.Entries + 5},
@@ -337,7 +342,7 @@ wait:
 		return err
 	}
 	if runErr != nil {
-		return fmt.Errorf("the run was aborted: %v (CONNECT answers %+v)", runErr, px.Answers())
+		return fmt.Errorf("the run was aborted: %v (httptrace %+v, CONNECT answers %+v)", runErr, c.HTTPTrace, px.Answers())
 	}
 	lines, data, err := readPhout(out)
 	if err != nil {
@@ -395,6 +400,7 @@ wait:
 	}
 	o.ClassIf(c.KeepAlive, "connect_keep_alive")
 	o.ClassIf(c.Instances >= 2, "instances_ge_2")
+	c.HTTPTrace.classes(o, lines)
 	if refusedConnects > 0 && goodAfterRefusal {
 		o.NonTrivial()
 	}
